@@ -263,7 +263,7 @@ def r5(idx, rep):
             rep.check(len(rets) == 1 and K.is_const(rets[0].value, True), "R5", f"{m.file}::{c}.override_frozen returns True", "", K.where(m, m.node))
         else:
             rep.check(len(rets) == 1 and K.is_const(rets[0].value, False), "R5", f"{m.file}::{c}.override_frozen base returns False", f"{[unparse(r.value) for r in rets]}", K.where(m, m.node))
-    rep.floor("R5", 4, "override_frozen definitions")
+    rep.floor("R5", 2, "override_frozen definitions")
     # do_frozen: True iff csvpath.is_frozen and not override_frozen()
     fd = idx.method("Qualified", "do_frozen")
     rep.analysed(fd)
@@ -276,54 +276,79 @@ def r5(idx, rep):
         if p.result[0] != "return" or bool(p.result[1]) is not want:
             badd = f"is_frozen={fz} override={ov}: do_frozen returns {p.result[1]!r}, documented {want}"
     rep.check(badd is None, "R5", f"{fd.file}::Qualified.do_frozen table", badd or "", K.where(fd, fd.node))
-    # stores to is_frozen / _freeze_path: False only in Last._decide_match and in Equality._do_when (left side
-    # overrides frozen, e.g. `last() -> print()`), and every unfreeze is re-frozen on all normal paths
-    unfreezers = {"Last._decide_match": None, "Equality._do_when": "override"}
+    # stores to is_frozen / _freeze_path: a frozen path is unfrozen only in Last._decide_match and in Equality._do_when (left side
+    # overrides frozen, e.g. `last() -> print()`), only around the consequence, and the state found on entry is restored on every
+    # normal path (a path that was not frozen is not left frozen: later components of the same line still run)
+    unfreezers = {"Last._decide_match", "Equality._do_when"}
+    seen = set()
     for s in K.attr_stores(idx, {"is_frozen", "_freeze_path"}):
         fi, v = s["fi"], s["value"]
         if fi.qual in ("CsvPath.__init__",) or (fi.name == "is_frozen"):
             continue
-        if K.is_const(v, False):
-            okw = fi.qual in unfreezers
-            if okw and unfreezers[fi.qual]:
-                g = K.guard_of(fi, s["stmt"])
-                okw = unfreezers[fi.qual] in G.atoms(g) and K.implies(g, ("atom", unfreezers[fi.qual]))[0]
-                if okw:
-                    # `override` must be: left is a Function that overrides frozen
-                    al = [unparse(val) for t, val, st in __import__("sa.index", fromlist=["x"]).stores_in(fi.node)
-                          if isinstance(t, ast.Name) and t.id == "override"]
-                    okw = al == ["isinstance(self.left, Function) and self.left.override_frozen()"]
-            rep.check(okw, "R5", f"{fi.file}::{fi.qual} unfreezes", "only last() (or a when/do whose left side overrides frozen) may unfreeze a frozen path", K.where(fi, s["stmt"]))
-            # re-freeze on all normal paths (decision table; the unfreeze and re-freeze are correlated tests)
-            okr, n = refreeze_table(idx, fi)
-            rep.check(okr is None, "R5", f"{fi.file}::{fi.qual} re-freezes", okr or f"{n} paths", K.where(fi, s["stmt"]))
+        if fi.qual in unfreezers:
+            seen.add(fi.qual)
+        elif K.is_const(v, False):
+            rep.fail("R5", f"{fi.file}::{fi.qual} unfreezes", "only last() (or a when/do whose left side overrides frozen) may unfreeze a frozen path", K.where(fi, s["stmt"]))
         else:
             rep.check(K.is_const(v, True), "R5", f"{fi.file}::{fi.qual} freeze store", f"stores {unparse(v)}", K.where(fi, s["stmt"]))
+    rep.check(seen == unfreezers, "R5", "csvpath/matching::unfreezers", f"functions that lift the freeze: {sorted(seen)}, documented {sorted(unfreezers)}", "csvpath/matching")
+    frozen_checks(idx, rep, "R5")
 
 
-def refreeze_table(idx, fi):
-    """every normal path that stores is_frozen=False stores is_frozen=True afterwards"""
+FROZEN_ASPECTS = ("re-freezes a frozen path", "leaves an unfrozen path unfrozen", "consequence runs unfrozen, other components see the state on entry")
+
+
+def frozen_table(idx, fi):
+    """initial frozen state x votes x (left overrides frozen): the consequence runs unfrozen when the left side is last()/fail(), the other
+    components see the state found on entry, and that state is what the function leaves behind.  Returns ({aspect: detail of the first
+    failing row}, number of paths)"""
+    FZ = "self.matcher.csvpath.is_frozen"
+
     def iso(interp, args, call):
         return interp.choose("isinstance:" + unparse(call), [True, False])
 
     def vote(interp, call, recv, args, kwargs):
-        interp.record_call("component.matches", interp.store.get("self.matcher.csvpath.is_frozen", "unset"))
+        interp.record_call("component.matches", (recv.name if isinstance(recv, Obj) else str(recv), interp.store.get(FZ, "unset")))
         return interp.choose("vote", [True, False, None], memo=False)
 
-    it = Interp(idx, types={"self": fi.cls}, unknown_calls="residual", isinstance_oracle=iso,
-                domains={"self.op": ["->"], "self.sentinel": [False, True], "self.matcher._AND": [True, False],
-                         "self.left.override_frozen()": [True, False], "self._left_nocontrib(self.left)": [True, False],
-                         "self.matcher.csvpath.line_monitor.is_last_line()": [True, False],
-                         "self.matcher.csvpath.scanner": [Obj("scanner")]},
-                handlers={".matches": vote})
-    paths = it.run_all(fi, store={"self.children": [Obj("c0")], "self.left": Obj("left"), "self.right": Obj("right")})
-    for p in paths:
-        if p.result[0] != "return":
-            continue
-        fz = p.sets("self.matcher.csvpath.is_frozen")
-        if fz and fz[-1] is not True:
-            return f"a normal path leaves the csvpath unfrozen: {p.summary()['choices']}", len(paths)
-    return None, len(paths)
+    n = 0
+    bad = {}
+    for init in (True, False):
+        it = Interp(idx, types={"self": fi.cls}, unknown_calls="residual", isinstance_oracle=iso,
+                    domains={"self.op": ["->"], "self.sentinel": [False, True], "self.matcher._AND": [True, False],
+                             "self.left.override_frozen()": [True, False], "self._left_nocontrib(self.left)": [True, False],
+                             "self.matcher.csvpath.line_monitor.is_last_line()": [True, False],
+                             "self.matcher.csvpath.scanner": [Obj("scanner")]},
+                    handlers={".matches": vote})
+        paths = it.run_all(fi, store={"self.children": [Obj("c0")], "self.left": Obj("left"), "self.right": Obj("right"), FZ: init})
+        for p in paths:
+            n += 1
+            if p.result[0] != "return":
+                continue
+            cfg = f"frozen on entry={init} {p.summary()['choices']}"
+            final = p.final_store.get(FZ)
+            if final is not init:
+                if init:
+                    bad.setdefault(FROZEN_ASPECTS[0], f"{cfg}: a path that is ending (frozen) is left with is_frozen={final!r}: components other than last()/fail() would run on the blank last line")
+                else:
+                    bad.setdefault(FROZEN_ASPECTS[1], f"{cfg}: the path is left with is_frozen={final!r} although it was not frozen on entry: every later component of the line "
+                                                      "(assignments, push(), fail_and_stop(), …) becomes a no-op")
+            overrides = fi.qual == "Last._decide_match" or (p.atom("self.left.override_frozen()") is True and all(v for t, v in p.choices if t.startswith("isinstance:")))
+            for who, fz in [c[1] for c in p.calls("component.matches")]:
+                consequence = who in ("right", "c0")
+                want = False if (consequence and overrides) else init
+                if fz is not want:
+                    bad.setdefault(FROZEN_ASPECTS[2], f"{cfg}: component '{who}' is evaluated with is_frozen={fz!r}, documented {want!r}")
+    return bad, n
+
+
+def frozen_checks(idx, rep, rid):
+    for cls, meth in (("Last", "_decide_match"), ("Equality", "_do_when")):
+        fi = idx.method(cls, meth)
+        rep.analysed(fi)
+        bad, n = frozen_table(idx, fi)
+        for a in FROZEN_ASPECTS:
+            rep.check(a not in bad, rid, f"{fi.file}::{fi.qual} {a}", bad.get(a, f"{n} paths"), K.where(fi, fi.node))
 
 
 def r6(idx, rep):
